@@ -81,6 +81,18 @@ pub struct RunCfg {
     /// as when a context is reused for a second program
     #[serde(default)]
     pub pre_tape: bool,
+    /// after the program has returned, ask the context's tape for a range no allocator can provide (C17)
+    #[serde(default)]
+    pub huge: Option<Huge>,
+}
+
+/// A growth request of about 2^exp cells (+ jitter) on the tape the program leaves behind.
+#[derive(Clone, Copy, PartialEq, Eq, Debug, Hash, Serialize, Deserialize)]
+pub struct Huge {
+    /// 0 make_accessible above, 1 below, 2 both sides at once, 3 write far above, 4 write far below, 5 move far + write
+    pub kind: u8,
+    pub exp: u8,
+    pub jitter: i8,
 }
 
 /// log statistics of the bytecode the executor holds (bc / jit only)
@@ -91,11 +103,18 @@ pub const PROBE_IR: u8 = 2;
 
 impl RunCfg {
     pub fn plain(backend: Backend, level: u32) -> RunCfg {
-        RunCfg { backend, level, mode: Mode::Exec, fault: Fault::None, alloc: Alloc::OFF, probes: 0, pre_tape: false }
+        RunCfg { backend, level, mode: Mode::Exec, fault: Fault::None, alloc: Alloc::OFF, probes: 0, pre_tape: false, huge: None }
     }
     pub fn describe(&self, bits: u32) -> String {
         format!("{} -O{} i{} {:?} fault={:?} alloc={}", self.backend.name(), self.level, bits, self.mode, self.fault, self.alloc.mode)
     }
+}
+
+/// The error kind of an injected I/O failure varies with the position of the failing operation:
+/// the property speaks of any error, not of one kind.
+fn fault_kind(position: usize) -> io::ErrorKind {
+    use io::ErrorKind::*;
+    [Interrupted, Other, BrokenPipe, WouldBlock, PermissionDenied, UnexpectedEof, TimedOut, WriteZero][position % 8]
 }
 
 struct LogIn {
@@ -111,7 +130,7 @@ impl Read for LogIn {
         self.n += 1;
         if let Some(f) = self.fail_at {
             if k >= f {
-                return Err(io::Error::new(io::ErrorKind::Other, "injected input failure"));
+                return Err(io::Error::new(fault_kind(f), "injected input failure"));
             }
         }
         if self.pos < self.data.len() {
@@ -134,7 +153,7 @@ impl Write for LogOut {
         self.n += 1;
         if let Some((f, err)) = self.fail_at {
             if k >= f {
-                return if err { Err(io::Error::new(io::ErrorKind::Other, "injected output failure")) } else { Ok(0) };
+                return if err { Err(io::Error::new(fault_kind(f), "injected output failure")) } else { Ok(0) };
             }
         }
         Ok(1)
@@ -198,6 +217,9 @@ fn run_executable<C: CellType, E: Executable<C>>(e: &E, input: &[u8], cfg: &RunC
             None
         }
     };
+    if let Some(h) = cfg.huge {
+        huge_request::<C>(&mut cx, h);
+    }
     if cfg.alloc.mode != 0 {
         use std::sync::atomic::Ordering::SeqCst;
         let z = galloc::ZCOUNT.load(SeqCst);
@@ -214,6 +236,49 @@ fn run_executable<C: CellType, E: Executable<C>>(e: &E, input: &[u8], cfg: &RunC
     fin
 }
 
+/// C17: a growth request that cannot be satisfied (2^40 .. 2^63 cells). The call may end the process
+/// (abort / panic); if it returns, every cell the tape now reports accessible must lie inside a block
+/// the allocator handed out and has not taken back.
+fn huge_request<C: CellType>(cx: &mut Context<C>, h: Huge) {
+    let n: isize = (1isize << h.exp.clamp(40, 62)) + h.jitter as isize;
+    let (lo, hi): (isize, isize) = match h.kind % 6 {
+        0 => (-1, n),
+        1 => (-n, 2),
+        2 => (-n, n),
+        3 => (n, n + 1),
+        4 => (-n, -n + 1),
+        _ => (-3, 4),
+    };
+    child::log_note(&format!("huge-begin={lo},{hi}"));
+    match h.kind % 6 {
+        0 | 1 | 2 => cx.memory.make_accessible(lo, hi),
+        3 | 4 => cx.memory.write(lo, C::ONE),
+        _ => {
+            cx.memory.mov(if h.jitter < 0 { -n } else { n });
+            cx.memory.write(0, C::ONE);
+        }
+    }
+    // it came back: the allocator must really have provided the cells
+    let size = std::mem::size_of::<C>();
+    let mut probes = vec![lo, lo + 1, lo / 2 + hi / 2, hi - 2, hi - 1, 0];
+    probes.retain(|&o| o >= lo && o < hi);
+    let (mut acc, mut unowned) = (0, 0);
+    for o in probes {
+        if !cx.memory.check(o) {
+            continue;
+        }
+        acc += 1;
+        let addr = (cx.memory.current_ptr() as usize).wrapping_add((o as usize).wrapping_mul(size));
+        if !galloc::owns(addr, size) {
+            unowned += 1;
+            child::log_note(&format!("huge-unowned={o}"));
+        } else {
+            cx.memory.write(o, C::ONE);
+        }
+    }
+    child::log_note(&format!("huge-returned={acc},{unowned}"));
+}
+
 fn loc_kind<C: CellType>(l: &bc::Loc<C>, regs: usize) -> &'static str {
     match *l {
         bc::Loc::Mem(_) => "mem",
@@ -222,8 +287,11 @@ fn loc_kind<C: CellType>(l: &bc::Loc<C>, regs: usize) -> &'static str {
         bc::Loc::Tmp(_) => "stk",
         bc::Loc::Imm(v) => {
             let s = v.into_i64();
-            if s >= i32::MIN as i64 && s <= i32::MAX as i64 {
+            if s >= 0 && s <= i32::MAX as i64 {
                 "i32"
+            } else if s >= i32::MIN as i64 && s < 0 {
+                // sign-extended by most encodings, but not by a 32-bit register move
+                "n32"
             } else {
                 "i64"
             }
